@@ -39,6 +39,11 @@ def processLine (st : St) (no : Nat) (line : String) : St × List String :=
         if ok got then ({ st with checked := st.checked + 1 }, sameOuts)
         else ({ st with checked := st.checked + 1, mismatches := st.mismatches + 1 },
               [s!"MISMATCH {c.lineNo} | {c.raw} | want {descr} | got {got}"] ++ sameOuts)
+      | .explain why descr =>
+        match why got with
+        | none => ({ st with checked := st.checked + 1 }, sameOuts)
+        | some reason => ({ st with checked := st.checked + 1, mismatches := st.mismatches + 1 },
+              [s!"MISMATCH {c.lineNo} | {c.raw} | want {descr} | REASON {reason} | got {got.take 600}"] ++ sameOuts)
   else
     -- a command without observation that is still pending takes effect now
     let (st, outs) := match st.pending with
